@@ -871,6 +871,74 @@ def suite_union(tier, seed):
     return s
 
 
+def suite_multi_filter(tier, seed):
+    s = Suite("rel:kv-multi-filter")
+    s.rule = ("C02 / C12 for several filters in one REQ: REQs of 2-4 deliberately overlapping filters (a filter, the same with one field "
+              "dropped or widened, each with its own limit from {1,2,3,none}) through BaseStorage.subscribe; the frames before EOSE, as a "
+              "multiset of ids, must equal the concatenation of the answers to each filter sent alone (each filter is served under its own limit, "
+              "an event matching k filters arrives between one and k times and at least once if any filter alone delivers it); non-trivial = two "
+              "filters deliver a common event and some filter is truncated by its limit")
+    env = _env()
+    rng = rng_for(seed, "kvmultifilter")
+    n_hist = 12 if tier == "quick" else 150
+    per = 12 if tier == "quick" else 30
+    results = []
+
+    def widen(f):
+        g = dict(f)
+        ks = [k for k in g if k != "limit"]
+        if len(ks) > 1 and rng.random() < 0.7:
+            g.pop(rng.choice(ks))
+        elif "kinds" in g:
+            g["kinds"] = sorted(set(g["kinds"]) | {1, 7})
+        g.pop("limit", None)
+        lim = rng.choice([1, 2, 3, None, None])
+        if lim is not None:
+            g["limit"] = lim
+        return g
+
+    async def go():
+        for _ in range(n_hist):
+            evs = gen_history(rng, rng.choice([4, 8, 12, 20]), delegation=False)
+            st, _ = await load_store(evs, max_limit=BIG)
+            for _ in range(per):
+                f = gen_filter(rng, evs, limits=False)
+                f.pop("limit", None)
+                fs = [widen(f) for _ in range(rng.randint(2, 4))]
+                ok = []
+                for g in fs:
+                    try:
+                        validate_filter(g)
+                        ok.append(g)
+                    except Exception:
+                        pass
+                if len(ok) < 2:
+                    continue
+                whole, _o = await impl_req(st, ok)
+                parts = []
+                for g in ok:
+                    a, _o = await impl_req(st, [g])
+                    parts.append([e["id"] for e in a])
+                results.append((ok, [e["id"] for e in whole], parts, evs))
+            await close_store(st)
+    env.run(go())
+    for fs, w, parts, evs in results:
+        brief = {"filters": fs}
+        common = set(parts[0]).intersection(*[set(p) for p in parts[1:]]) if parts else set()
+        trunc = any("limit" in g and len(p) == g["limit"] for g, p in zip(fs, parts))
+        s.case(brief, nontrivial=bool(common) and trunc)
+        s.count("filters_%d" % len(fs))
+        s.count("overlap" if common else "disjoint")
+        s.count("truncated" if trunc else "complete")
+        if sorted(w) != sorted(x for p in parts for x in p):
+            missing = sorted({x for p in parts for x in p} - set(w))
+            s.violate("kv_multi_filter_req_differs", dict(brief, history=evs),
+                      "the answer to a REQ with several filters is not the concatenation of the answers to its filters"
+                      + (" (%d events delivered for a filter alone are missing)" % len(missing) if missing else ""),
+                      expected=[sorted(p) for p in parts], observed=sorted(w))
+    return s
+
+
 # ---- C01: hostile filter contents ---------------------------------------------
 HOSTILE = ["'", "''", "\\", "\\'", '"', "%", "_", "--", "/*", ";", ")", "\x00", "\n", "‮", "é", "\U0001F600", "{", "}", "{0}",
            "!r", "{value!r}", "__import__('os').system('x')", "' OR 1=1)) --", "1" * 70, "')]) or True or bool([('", "\\x00", "%s", "\ud800",
@@ -964,7 +1032,7 @@ def suites_c01(tier, seed):
 
 def suites_c02(tier, seed):
     return [suite_corpus(tier, seed, only=("C02",)), suite_scan(tier, seed), suite_multi(tier, seed), suite_plan(tier, seed), suite_answer(tier, seed),
-            suite_oracle(tier, seed, props=("c02",), name="oracle:kv-c02", label="kvc02")]
+            suite_oracle(tier, seed, props=("c02",), name="oracle:kv-c02", label="kvc02"), suite_multi_filter(tier, seed)]
 
 
 def suites_c11(tier, seed):
@@ -972,7 +1040,8 @@ def suites_c11(tier, seed):
 
 
 def suites_c12(tier, seed):
-    return [suite_corpus(tier, seed, only=("C12",)), suite_oracle(tier, seed, props=("c12",), name="oracle:kv-c12", label="kvc12")]
+    return [suite_corpus(tier, seed, only=("C12",)), suite_oracle(tier, seed, props=("c12",), name="oracle:kv-c12", label="kvc12"),
+            suite_multi_filter(tier, seed)]
 
 
 # ---- corpus: minimised witnesses of the defects found (fixed ones must pass, open ones are reported under their class) -----
@@ -1049,6 +1118,22 @@ def replay(payload):
         o, ans, stored, q = run_case(events, raw, mx)
         bad = [p for p in ("c01", "c02", "c12") if not o[p]]
         print("answer ids:", [e["id"][:8] for e in ans], "n_may", o["n_may"], "n_must", o["n_must"], "failing:", bad)
+        print("replay:", "FAIL" if bad else "pass")
+        return 1 if bad else 0
+    if "history" in c and "filters" in c:
+        env = _env()
+
+        async def go():
+            st, _ = await load_store(c["history"], max_limit=BIG)
+            whole, _o = await impl_req(st, c["filters"])
+            parts = [[e["id"] for e in (await impl_req(st, [g]))[0]] for g in c["filters"]]
+            await close_store(st)
+            return [e["id"] for e in whole], parts
+        w, parts = env.run(go())
+        bad = sorted(w) != sorted(x for p in parts for x in p)
+        print("REQ with all filters:", [x[:8] for x in w])
+        for g, p in zip(c["filters"], parts):
+            print("  alone", g, "->", [x[:8] for x in p])
         print("replay:", "FAIL" if bad else "pass")
         return 1 if bad else 0
     print("replay: case carries no store; re-run the suite with the recorded seed")
